@@ -272,6 +272,18 @@ EmaConvex ==
         LET v == inst[i].ref.e.v  lo == RI(inst[i].ref.lo)  hi == RI(inst[i].ref.hi) IN
         (CmpOk(lo, v) /\ CmpOk(v, hi)) => (RLeq(lo, v) /\ RLeq(v, hi))
 
+\* C03 lemma: an unchanged price scales both averages of RSI by the same factor, so -- wherever U + D is not zero -- the
+\* output does not move, however long the flat run.  (The bounded rationals cannot follow a long decay, (1/3)^31 does not
+\* fit 32 bits; this lemma, checked here on every reachable state, is what licenses the replayer to demand "RSI unchanged
+\* on an unchanged price" on runs of any length, while the real averages are normal numbers.)
+RsiFlat ==
+    \A i \in Ids : (Present(i) /\ inst[i].kind = "RSI" /\ ~inst[i].taint /\ ~inst[i].ref.new) =>
+        LET s == inst[i].ref
+            tot == RAdd(s.u.v, s.d.v)
+            cur == RScale(100, RDiv(s.u.v, tot))
+            nxt == RefStep("RSI", inst[i].p, s, [ty |-> "s", x |-> s.pv]).f[1].r
+        IN (IsVal(tot) /\ tot[1] # 0 /\ IsVal(cur) /\ IsVal(nxt)) => nxt = cur
+
 \* C15 on the reference: the documented formula of a composite = the composition of its public parts
 PartsAgree ==
     \A i \in Ids : (Present(i) /\ ~inst[i].taint /\ inst[i].kind \in Composites /\ inst[i].ro # <<>>) =>
